@@ -151,14 +151,15 @@ Proof.
     + rewrite memN_filter, H. cbn [andb]. destruct (N.eqb_spec l' l); [contradiction | reflexivity].
 Qed.
 
-Lemma cin_unbreak k ca hd :
+Lemma cin_unbreak k ca hd tt :
   cin k ca = true ->
-  cin (unbreak k) {| cN := cN ca || cB0 ca || hd; cR := cR ca; cT := cT ca; cB0 := false; cC0 := cC0 ca;
+  cin (unbreak k) {| cN := cN ca || cB0 ca || hd; cR := cR ca; cT := cT ca || tt; cB0 := false; cC0 := cC0 ca;
                      cBL := cBL ca; cCL := cCL ca |} = true.
 Proof.
   destruct k as [| [l'|] | [l'|] | |]; cbn [unbreak cin cN cR cT cB0 cC0 cBL cCL]; intros H; try exact H.
   - rewrite H. reflexivity.
   - rewrite H. rewrite orb_true_r. reflexivity.
+  - rewrite H. reflexivity.
 Qed.
 
 Lemma exec_csem :
@@ -203,6 +204,7 @@ Proof.
   - assumption.
   - (* switch *) cbn [csem]. apply cin_unbreak. eapply suffix_any; eassumption.
   - cbn [csem cin cN]. rewrite H. apply orb_true_r.
+  - cbn [csem cin cT]. rewrite H. apply orb_true_r.
   - (* label *) cbn [csem]. apply cin_unlabel. assumption.
   - (* try *) cbn [csem]. apply H3.
     unfold sem_catch. destruct h as [hp|]; [|assumption].
@@ -364,7 +366,8 @@ Proof.
     + destruct (any_suffix cs (Cont (Some l)) H) as [cs' [Hs Hk]]. apply (X_switch ls p cs cs' (Cont (Some l)) Hs). apply (IH2 _ _ Hs Hk).
     + destruct (any_suffix cs (Cont None) H) as [cs' [Hs Hk]]. apply (X_switch ls p cs cs' (Cont None) Hs). apply (IH2 _ _ Hs Hk).
     + destruct (any_suffix cs Ret H) as [cs' [Hs Hk]]. apply (X_switch ls p cs cs' Ret Hs). apply (IH2 _ _ Hs Hk).
-    + destruct (any_suffix cs Thr H) as [cs' [Hs Hk]]. apply (X_switch ls p cs cs' Thr Hs). apply (IH2 _ _ Hs Hk).
+    + apply orb_true_iff in H. destruct H as [H|H]; [|apply X_switch_test_thr; exact H].
+      destruct (any_suffix cs Thr H) as [cs' [Hs Hk]]. apply (X_switch ls p cs cs' Thr Hs). apply (IH2 _ _ Hs Hk).
   - (* label *) intros p l b IHb ls k H. cbn [csem] in H.
     destruct k as [| [l'|] | [l'|] | |]; cbn [cin cN cR cT cB0 cC0 cBL cCL] in H.
     + apply orb_true_iff in H. destruct H as [H|H].
